@@ -23,13 +23,22 @@ RULE = ('random categorical series (N <= 14 dumps, <= 8 events incl. one event p
         '(siblings and parent must not change), remove_repeats, the remove/align/add(0) label pipeline; malformed '
         'arguments (unsorted / duplicate / empty / out-of-range segments, wrong-length masks, out-of-range dumps) are '
         'mixed in; a separate stream uses float series with NaN objects (oracle: per-dump list only); a third stream '
-        'calls unique_in_order directly (hashable and tokenize paths, with and without return_inverse). A case is '
+        'calls unique_in_order directly (hashable and tokenize paths, with and without return_inverse); a fourth stream '
+        'runs histories of 3-10 operations over SEVERAL containers (independent series, parents, parts of partition, '
+        'results of concatenate of 1-3 parts; interleaved add / remove / add_unmatched / align / remove_repeats) and '
+        'compares the value of EVERY container after every operation with the heap model + model-free aliasing oracles '
+        '(no other container changed, a raising call changed nothing, the caller\'s event array never written). Value '
+        'kind arrayx = ndarrays that differ only in shape / dtype with equal raw bytes (identity = dtype, shape, '
+        'contents), wrapped or bare; add() events include -2, -1, N, N+1, N+3 (documented answer: IndexError). A case is '
         'one (series, operation sequence); non-trivial when the series has >= 2 events and the sequence has >= 2 '
         'operations at least one of which mutates; distinct by (kind, values, events, operations)')
 ASSUMPTIONS = ['constructor contract: events strictly increasing, one more event than values (the first event need not '
-               'be dump 0); segment arguments strictly increasing (documented); add(event) with event >= N, empty / '
+               'be dump 0); segment arguments strictly increasing (documented); empty / '
                'unsorted / duplicate segment lists, wrong-length masks are out of domain (only "exception or same as '
-               'model" is demanded, behaviour proved in C11_add_outside / C11_getitem_wrong_mask)',
+               'model" is demanded, behaviour proved in C11_getitem_wrong_mask); add(event) outside 0 <= event < N is IN '
+               'domain since katdal d362220: IndexError and nothing changed (C11_add_total)',
+               'numpy fancy / boolean-mask indexing, np.r_, np.unique, np.concatenate return new arrays, basic slicing '
+               'returns views (the storage discipline of Model/CategoricalH.v): exercised, not verified',
                'identity-based NaN handling of Python dicts is not modelled: in the NaN stream only the per-dump list '
                'is compared', 'numpy searchsorted/argmin/unique/nonzero/r_/slice assignment are modelled (count of <=, '
                'first minimum, sorted distinct, filter, fill), not verified; Python slice.indices+range is compared '
